@@ -135,7 +135,7 @@ Definition model_stream (c : case) : list entry * bool :=
   match c_fmt c with
   | 0%N => parse_text O (o_typeunit (c_opts c)) (c_payload c)
   | 1%N => parse_om O (c_opts c) (c_payload c)
-  | _ => (entries_proto O (c_opts c) (c_fams c), true)
+  | _ => (model_proto O (c_opts c) (c_fams c), true)
   end.
 
 Definition model_print (c : case) : bstr :=
